@@ -10,6 +10,7 @@ import (
 	"github.com/aperturerobotics/bifrost/link"
 	"github.com/aperturerobotics/bifrost/peer"
 	"github.com/aperturerobotics/bifrost/transport"
+	"github.com/pkg/errors"
 	"github.com/quic-go/quic-go"
 	"github.com/sirupsen/logrus"
 )
@@ -163,6 +164,16 @@ func (t *Transport) DialPeer(ctx context.Context, peerID peer.ID, as string) (li
 	lnk, err := dl.result.Await(ctx)
 	if err != nil {
 		return nil, false, err
+	}
+
+	// the dial is performed without a peer constraint: check who answered
+	if rpeer := lnk.GetRemotePeer(); len(peerID) != 0 && rpeer != peerID {
+		return nil, false, errors.Errorf(
+			"dialed %s: remote peer id %s != requested %s",
+			as,
+			rpeer.String(),
+			peerID.String(),
+		)
 	}
 
 	return lnk, false, err
